@@ -10,7 +10,7 @@ def propKindOf : Json → PropKind × String
   | .str s => (.str, s)
   | .num _ => (.num, "")
   | .bool _ => (.bool, "")
-  | .arr _ => (.arr, "")
+  | .arr xs => (.arr, String.intercalate (String.singleton (Char.ofNat 1)) (xs.toList.filterMap fun x => x.getStr?.toOption))
   | .obj _ => (.obj, "")
   | .null => (.null, "")
 
